@@ -185,15 +185,10 @@ def check(rep, tier, seed):
     faults = [fault_case(seed, i, ["memkv", "tikv", "badger"][i % 3]) for i in range(3 if tier == "quick" else 18)]
     cases += faults
     core.run_cases(cases)
-    for c in cases:
-        rep.count_case(c)
+    def pick(c):
         hit = fault_oracle(c) if c.meta.get("fault") else oracle(c)
-        if hit and not (hit[1] == "perpartition-stream" and c.meta.get("adv_mismatch")):
-            if core.handle_oracle_hit(rep, "C13", hit[1], c, hit[0], hit[1]):
-                return
-            continue
-        if c.diff() is not None:
-            core.handle_diff(rep, "C13", "correspondence", c)
-            return
+        return hit if hit and not (hit[1] == "perpartition-stream" and c.meta.get("adv_mismatch")) else None
+    if core.judge(rep, "C13", cases, pick):
+        return
     rep.assumptions += ["partition borders are stored keys or well-formed internal keys (any raw key over the alphabet, any revision)",
                         "injected partitions are handed to the scanner in reversed order; real splits come from the tikv mock cluster"]
